@@ -103,6 +103,7 @@ func c05Registry(repo string) []c05pred {
 var c05Shapes = []string{
 	"_", "foo", "[]", "'hello world'", "0", "1", "-1", "9223372036854775807", "-9223372036854775808", "1.5", "-0.0",
 	"f(a)", "f(V%d)", "a-b", "foo/1", "[a,b]", "[a|T%d]", "[a|b]", "\"str\"", "user_input", "S", "(foo, bar)", "call(foo)", "[1,2,3]", "'$VAR'(1)", "{a}",
+	"''", "a = ''", "f('', '')", "- ''", "'' / 0", // the empty atom, alone, beside operators and as an argument
 	"[a|B%d]", "W%d", // B<i> is bound to [b] and W<i> to f(x) before the goal runs: the same terms as [a,b] and f(x), built another way
 }
 
@@ -368,6 +369,20 @@ func c05Classify(out outcome) (class string, bad bool, detail string) {
 	return "fails", false, ""
 }
 
+// the host renders the error it was given: err.Error() must not panic either
+func c05Render(err error) (msg string) {
+	if err == nil {
+		return ""
+	}
+	defer func() {
+		if r := recover(); r != nil {
+			msg = fmt.Sprint("err.Error() panics in the host: ", r)
+		}
+	}()
+	_ = err.Error()
+	return ""
+}
+
 func c05RunTask(t c05task) (string, bool, string) {
 	wall, cancel := context.WithTimeout(context.Background(), 4*time.Second)
 	defer cancel()
@@ -376,6 +391,9 @@ func c05RunTask(t c05task) (string, bool, string) {
 	case "goal", "query":
 		p := prolog.New(nil, nil)
 		out := runQueryCtx(ctx, p, 3, t.names, t.text)
+		if m := c05Render(out.Raw); m != "" {
+			return "error-value-panics-when-rendered", true, m
+		}
 		c, bad, d := c05Classify(out)
 		if t.kind == "query" && c == "go-error" {
 			c = "text-rejected"
@@ -387,6 +405,9 @@ func c05RunTask(t c05task) (string, bool, string) {
 	default:
 		p := prolog.New(nil, nil)
 		err := p.ExecContext(ctx, t.text)
+		if m := c05Render(err); m != "" {
+			return "error-value-panics-when-rendered", true, m
+		}
 		var out outcome
 		out.Err, out.GoErr = errTerm(err)
 		if err == nil {
